@@ -33,7 +33,8 @@ fn restyle(text: &str, rng: &mut Rng, fault: bool) -> String {
         out.push_str("\ndef fault_undefined_parent : NoSuchClass;\ndefvar fault_v = no_such_symbol;\n");
     }
     if nonascii {
-        out = out.replace("\"s", "\"é€😀s");
+        // accents, a character of every UTF-8 length and the first three-byte character (lead byte E0)
+        out = out.replace("\"s", "\"é€😀\u{800}\u{ffff}s");
     }
     if crlf {
         out = out.replace("\r\n", "\n").replace('\n', "\r\n");
